@@ -255,8 +255,8 @@ func (g *egen) path(d int, want int) string {
 				default:
 					t = &T{K: kArr, Elem: tAny, Deref: true}
 				}
-			case c == 1 && d > 0:
-				s += "[" + g.expr(d-1) + "]"
+			case c == 1:
+				s += "[" + g.idxExpr(d) + "]"
 				t = tAny
 			default:
 				k := g.r.Pick(propPool)
@@ -290,11 +290,11 @@ func (g *egen) path(d int, want int) string {
 				}
 				s += "." + k
 				t = tAny
-			case c < 8 || d <= 0:
+			case c < 7:
 				s += fmt.Sprintf("[%d]", g.r.Intn(3))
 				t = t.Elem
 			default:
-				s += "[" + g.expr(d-1) + "]"
+				s += "[" + g.idxExpr(d) + "]"
 				t = t.Elem
 			}
 		case kAny:
@@ -324,6 +324,27 @@ func (g *egen) path(d int, want int) string {
 		}
 	}
 	return s
+}
+
+// idxExpr: an index expression: typed any, number or string most of the time
+func (g *egen) idxExpr(d int) string {
+	switch g.r.Intn(8) {
+	case 0, 1:
+		return "github.event." + g.r.Pick(propPool)
+	case 2:
+		return "fromJSON(env." + g.r.Pick(propPool) + ")"
+	case 3:
+		return g.path(0, kNum)
+	case 4:
+		return g.path(0, kStr)
+	case 5:
+		return "strategy.job-index"
+	default:
+		if d > 0 {
+			return g.expr(d - 1)
+		}
+		return g.lit()
+	}
 }
 
 func (g *egen) strArg(d int) string {
